@@ -193,6 +193,77 @@ k8u!(k8u_isfloat_2, CmpOperator::IsFloat, [V_FLOAT, V_INT], 7);
 //@ k8u_ismap_2 props=C01,C03 tier=thorough expect=pass fns=eval_guard_access_clause,unary_operation,is_struct_operation :: clause level, is_struct on (empty map, empty list)
 k8u!(k8u_ismap_2, CmpOperator::IsMap, [V_MAP_EMPTY, V_LIST_EMPTY], 7);
 
+// ---- `%var empty` / `<query ending in a filter> empty`: the emptiness test on the RESULT SET -----------------
+fn var_query() -> Vec<QueryPart<'static>> {
+    let mut s = String::new();
+    s.push('%');
+    s.push('v');
+    let mut q = Vec::with_capacity(1);
+    q.push(QueryPart::Key(s));
+    q
+}
+
+macro_rules! k8v {
+    ($name:ident, [$($kind:expr),*], $unwind:literal) => {
+        proof!($name, $unwind, {
+            let kinds: &[u8] = &[$($kind),*];
+            let not_op: bool = kani::any();
+            let negation: bool = kani::any();
+            let all: bool = kani::any();
+            let clause = gac(var_query(), all, (CmpOperator::Empty, not_op), None, negation);
+            let mut ctx = Ctx::new();
+            let mut lhs = Vec::with_capacity(kinds.len());
+            let mut i = 0;
+            while i < kinds.len() {
+                lhs.push(mk_qr(kinds[i], false));
+                i += 1;
+            }
+            ctx.lhs = Some(lhs);
+            let r = eval_guard_access_clause(&clause, &mut ctx);
+            let got = status_of(&r);
+            assert!(ctx.balanced());
+            assert!(ctx.n_block == 1);
+            if kinds.len() == 0 {
+                // the variable selected nothing: `%v empty` holds; `!empty` and prefix `not` each flip it,
+                // both together restore it
+                let truth = (true != not_op) != negation;
+                assert!(got == if truth { PASS } else { FAIL });
+                assert!(ctx.block_status == got);
+                assert!(ctx.n_success == truth as u32 && ctx.n_noval == (!truth) as u32);
+            } else {
+                // per selected entry: unresolved or null counts as empty, any other resolved value as not empty
+                let mut passes = 0u32;
+                let mut fails = 0u32;
+                let mut i = 0;
+                while i < kinds.len() {
+                    let is_empty = kinds[i] == V_UNRESOLVED || kinds[i] == V_NULL;
+                    let truth = (is_empty != not_op) != negation;
+                    if truth { passes += 1 } else { fails += 1 }
+                    i += 1;
+                }
+                let exp = if all {
+                    if fails > 0 { FAIL } else { PASS }
+                } else {
+                    if passes > 0 { PASS } else { FAIL }
+                };
+                assert!(got == exp);
+                assert!(ctx.block_status == exp);
+                assert!(ctx.n_success == passes && ctx.n_unary_fail == fails);
+            }
+            kani::cover!(got == PASS && negation && not_op);
+            kani::cover!(got == FAIL && negation);
+            forget(r);
+            forget(clause);
+        });
+    };
+}
+//@ k8v_varempty_0 props=C03,C01 tier=quick expect=pass fns=eval_guard_access_clause,unary_operation :: clause level, `[not] %v [!]empty` where the variable selects NOTHING: PASS iff true xor `!empty` xor prefix-not (double negation restores); Success / NoValueForEmptyCheck record accordingly; one block record; balanced
+k8v!(k8v_varempty_0, [], 6);
+//@ k8v_varempty_1 props=C03,C01 tier=quick expect=pass fns=eval_guard_access_clause,unary_operation :: clause level, `[not] %v [!]empty` on one resolved Int: not empty; negations flip
+k8v!(k8v_varempty_1, [V_INT], 6);
+//@ k8v_varempty_2 props=C03,C01 tier=thorough expect=pass fns=eval_guard_access_clause,unary_operation :: clause level, `[not] %v [!]empty` on (Null, unresolved, "x"): null and unresolved entries count as empty; some/all fold
+k8v!(k8v_varempty_2, [V_NULL, V_UNRESOLVED, V_STR_X], 8);
+
 //@ k8_twin props=C01,C02,C03 tier=quick expect=fail fns=eval_guard_access_clause :: vacuity twin of the clause-level family
 proof!(k8_twin, 6, {
     let clause = gac(key_query('a'), kani::any(), (CmpOperator::Exists, kani::any()), None, kani::any());
